@@ -43,7 +43,13 @@ def deep_snapshot(w, style_names):
                         [walk(c, depth + 1) for c in n.childNodes]]
             return ['T', id(n), n.nodeType, n.data]
         snap['tree'] = walk(w.doc.topnode, 0)
-        # name lookups first: on a document without styles each of them rebuilds the element index (document order);
+        # the type index as the call under test left it, read BEFORE anything that may rebuild it (getStyleByName on a document
+        # without registered styles re-walks the tree and would heal an index a refused call had damaged - how the re-evaluation
+        # of seeded change C07-r2m2 / C07-r6m2 went quiet after b44089a); order-insensitive, because the rebuild below may
+        # re-order the same entries
+        for f in QUERY_FACTORIES:
+            snap['byTypeSet ' + f] = sorted(id(e) for e in w.doc.getElementsByType(D.factory(f)))
+        # name lookups next: on a document without styles each of them rebuilds the element index (document order);
         # taken in this order the snapshot is idempotent, so a difference is the doing of the call under test
         for nm in sorted(style_names):
             s = w.doc.getStyleByName(nm)
